@@ -169,6 +169,11 @@ func RunWorker(a WorkerArgs) int {
 	pairs := map[string]struct{}{}
 	seenSig := map[string]int{}
 	unlisted := 0
+	var dump *os.File
+	if p := os.Getenv("VERIF_DUMP_HASHES"); p != "" {
+		dump, _ = os.Create(p)
+		defer dump.Close()
+	}
 	for idx := a.Worker; ; idx += a.Workers {
 		if a.MaxRuns > 0 && out.Runs >= a.MaxRuns {
 			break
@@ -179,6 +184,13 @@ func RunWorker(a WorkerArgs) int {
 		seed := runSeed(a.Seed, w.Name, idx)
 		res := RunOne(w, sim.NewGenTape(seed), a.Prop, a.Tier, false)
 		out.Runs++
+		if dump != nil {
+			sig := ""
+			if res.Viol != nil {
+				sig = res.Viol.Sig
+			}
+			fmt.Fprintf(dump, "%d %x %d %d %s %s\n", idx, res.Hash, res.Steps, len(res.Tape), res.Verdict, sig)
+		}
 		out.Steps += int64(res.Steps)
 		out.Switches += int64(res.Switches)
 		out.SimTimeNs += int64(res.SimTime)
